@@ -530,6 +530,12 @@ func (vc *VC) instr(ins ssa.Instruction) {
 		vc.mapStamp(x, mt, m.S, k.S)
 	case *ssa.Range:
 		vc.vals[x] = Term{S: vc.val(x.X).S, Sort: vc.sortOf(x.X.Type()), T: x.X.Type()}
+		if mt, ok := x.X.Type().Underlying().(*types.Map); ok {
+			if name := vc.sourceNameOf(x.X); name != "" {
+				ks := vc.sortOf(mt.Key())
+				vc.setComp("ghost|visited|"+name, "(Array "+ks+" Bool)", "((as const (Array "+ks+" Bool)) false)")
+			}
+		}
 	case *ssa.Next:
 		vc.next(x)
 	case *ssa.Call:
